@@ -213,6 +213,25 @@ func GenRuleSet(t *rapid.T, o RuleOpts) *Generated {
 					}
 					name = fmt.Sprintf("%s%d", pre, nameCount)
 					nameCount++
+					if len(pool) > 0 && rapid.IntRange(0, 7).Draw(t, "nametwin") == 0 {
+						// the name of an earlier rule with the case of its first letter flipped (`ws` / `Ws`): two rules, two
+						// token types, one of them elided
+						cand := pool[rapid.IntRange(0, len(pool)-1).Draw(t, "twinof")].name
+						if len(cand) > 1 && (cand[0] == 'T' || (cand[0] == 't' && !o.NoLowerCase) || cand[0] == 't') {
+							twin := string(cand[0]^0x20) + cand[1:]
+							if twin[0] == 't' && o.NoLowerCase {
+								twin = ""
+							}
+							for _, p := range pool {
+								if p.name == twin {
+									twin = ""
+								}
+							}
+							if twin != "" {
+								name, pre = twin, ""
+							}
+						}
+					}
 					if pre == "EOF" {
 						taken := false // one rule of that exact name per rule set
 						for _, p := range pool {
